@@ -12,5 +12,4 @@ import McpModel.Negotiate.Props
 -- (Paginate/Negotiate drivers are roots of their own executables; two `main`s cannot be imported together)
 import McpModel.TypedTool.Props
 import McpModel.Preflight.Props
-import McpModel.EventStore.Driver
 import McpModel.Notify.Props
